@@ -260,6 +260,34 @@ pub enum Event {
         charged: Option<(usize, u64)>,
         version_files: Vec<Vec<u64>>,
     },
+    /// the compaction thread served a manual compaction request once: the request as it found it
+    /// (`level`, `begin`, `end`), the files of the version `VersionSet::compact_range` selected
+    /// from, `max_file_size`, what it selected (`None` = nothing overlaps the range, the request
+    /// is done; otherwise the numbers of the level and parent files) and the key the request will
+    /// start from afterwards
+    /// `DB::compact_range(lo..hi)` looked for the deepest level with a file overlapping the range:
+    /// the files of the version it looked at and the level it found (1 if none)
+    ManualRange {
+        lo: Option<Vec<u8>>,
+        hi: Option<Vec<u8>>,
+        levels: Vec<Vec<FileDump>>,
+        max_level: usize,
+    },
+    /// `DB::force_level_compaction` built a manual compaction request
+    ManualRequest {
+        level: usize,
+        begin: Option<IKey>,
+        end: Option<IKey>,
+    },
+    ManualRound {
+        level: usize,
+        begin: Option<IKey>,
+        end: Option<IKey>,
+        levels: Vec<Vec<FileDump>>,
+        max_file_size: u64,
+        selected: Option<(Vec<u64>, Vec<u64>)>,
+        next_begin: Option<IKey>,
+    },
 }
 
 static EVENTS: parking_lot::Mutex<Vec<(String, Event)>> = parking_lot::Mutex::new(Vec::new());
@@ -897,6 +925,88 @@ pub fn pick_compaction_probe(
         files,
         pointer_keys,
     ))
+}
+
+/// Run one round of a manual compaction request (`VersionSet::compact_range(level, begin..end)`)
+/// on a synthetic version: the numbers of the selected level and parent files and the largest key
+/// of the last level file (where the request continues), or `None` when nothing overlaps.
+#[allow(clippy::type_complexity)]
+pub fn manual_round(
+    options: &crate::DbOptions,
+    levels: &[Vec<FileDump>],
+    level: usize,
+    begin: Option<&IKey>,
+    end: Option<&IKey>,
+) -> Result<Option<(Vec<u64>, Vec<u64>, IKey)>, String> {
+    use crate::versioning::file_metadata::FileMetadata;
+    let table_cache = Arc::new(crate::table_cache::TableCache::new(options.clone(), 10));
+    let mut files = vec![];
+    for level_files in levels.iter().take(crate::config::MAX_NUM_LEVELS) {
+        let mut metadata = vec![];
+        for file in level_files {
+            let mut meta = FileMetadata::new(file.number);
+            meta.set_file_size(file.size);
+            meta.set_smallest_key(Some(to_internal_key(&file.smallest)?));
+            meta.set_largest_key(Some(to_internal_key(&file.largest)?));
+            metadata.push(Arc::new(meta));
+        }
+        files.push(metadata);
+    }
+    let begin = match begin {
+        Some(key) => Some(to_internal_key(key)?),
+        None => None,
+    };
+    let end = match end {
+        Some(key) => Some(to_internal_key(key)?),
+        None => None,
+    };
+    let options = options.clone();
+    std::panic::catch_unwind(std::panic::AssertUnwindSafe(move || {
+        crate::versioning::version_set::VersionSet::verif_manual_probe(
+            &options,
+            &table_cache,
+            files,
+            level,
+            begin..end,
+        )
+        .map(|(level_files, parent_files, last)| (level_files, parent_files, ikey_tuple(&last)))
+    }))
+    .map_err(|panic| {
+        panic
+            .downcast_ref::<String>()
+            .cloned()
+            .or_else(|| panic.downcast_ref::<&str>().map(|s| s.to_string()))
+            .unwrap_or_else(|| "panic".to_string())
+    })
+}
+
+/// `Version::has_overlap_in_level` with optional bounds on a synthetic version, for every level
+/// `1 .. MAX_NUM_LEVELS` as `DB::compact_range` asks: the deepest level that answers yes (1 if none).
+pub fn max_level_with_overlap(
+    options: &crate::DbOptions,
+    levels: &[Vec<FileDump>],
+    lo: Option<&[u8]>,
+    hi: Option<&[u8]>,
+) -> Result<usize, String> {
+    use crate::versioning::file_metadata::FileMetadata;
+    let table_cache = Arc::new(crate::table_cache::TableCache::new(options.clone(), 10));
+    let mut version = crate::versioning::version::Version::new(options.clone(), &table_cache, 0, 0);
+    for (idx, files) in levels.iter().enumerate().take(crate::config::MAX_NUM_LEVELS) {
+        for file in files {
+            let mut meta = FileMetadata::new(file.number);
+            meta.set_file_size(file.size);
+            meta.set_smallest_key(Some(to_internal_key(&file.smallest)?));
+            meta.set_largest_key(Some(to_internal_key(&file.largest)?));
+            version.files[idx].push(Arc::new(meta));
+        }
+    }
+    let mut max_level = 1;
+    for level in 1..crate::config::MAX_NUM_LEVELS {
+        if version.has_overlap_in_level(level, lo, hi) {
+            max_level = level;
+        }
+    }
+    Ok(max_level)
 }
 
 /// Apply a sequence of version edits to a base version with the real `VersionBuilder` (one
